@@ -221,68 +221,99 @@ def build_doc_cas(case):
     return ts, cas, objs
 
 
-def run_documents(ctx, out, budget):
+def check_doc_case(case, out, k=0):
+    import random
     import warnings
 
     from cassis import load_cas_from_json, load_cas_from_xmi
 
+    rng = random.Random(repr(sorted(case.items(), key=lambda kv: kv[0])))
+    texts = [case["t1b"] or case["t1"], case["t2"]]
+    sc = {"k": "doc", "case": case}
+    with warnings.catch_warnings():
+        warnings.simplefilter("ignore")
+        try:
+            ts, cas, objs = build_doc_cas(case)
+            xmi = cas.to_xmi()
+            js = cas.to_json()
+        except Exception as e:  # noqa: BLE001
+            out.oracle_failures.append({"scenario": sc, "what": "serialisation raised " + repr(e)[:200]})
+            return
+        out.evaluations += 1
+        # --- written offsets are UTF-16 offsets (independent readers) ---
+        root = ET.fromstring(xmi.encode("utf-8"))
+        by_id = {int(el.get(XMI_NS + "id")): el for el in root if el.get(XMI_NS + "id") is not None}
+        data = json.loads(js)
+        jby = {fs["%ID"]: fs for fs in data["%FEATURE_STRUCTURES"]}
+        for a, fs in zip(case["anns"], objs):
+            t = texts[a["view"]]
+            eb, ee = u16len(t[: a["b"]]), u16len(t[: a["e"]])
+            el = by_id.get(fs.xmiID)
+            if el is None or int(el.get("begin")) != eb or int(el.get("end")) != ee:
+                out.oracle_failures.append({"scenario": sc, "what": "XMI offsets are not the UTF-16 offsets", "ann": a,
+                                            "expected": [eb, ee], "actual": None if el is None else [el.get("begin"), el.get("end")]})
+            jf = jby.get(fs.xmiID)
+            if jf is None or jf.get("begin") != eb or jf.get("end") != ee:
+                out.oracle_failures.append({"scenario": sc, "what": "JSON offsets are not the UTF-16 offsets", "ann": a,
+                                            "expected": [eb, ee], "actual": None if jf is None else [jf.get("begin"), jf.get("end")]})
+            if eb != a["b"] or ee != a["e"]:
+                out.nontriv(("doc", k, a["b"], a["e"], a["indexed"]))
+        # --- loading maps back to code points: covered text is the same substring ---
+        for fmt, load in (("xmi", lambda: load_cas_from_xmi(xmi, typesystem=ts)), ("json", lambda: load_cas_from_json(js))):
+            try:
+                c2 = load()
+            except Exception as e:  # noqa: BLE001
+                out.oracle_failures.append({"scenario": sc, "what": fmt + " load raised " + repr(e)[:200]})
+                continue
+            found = {}
+            for fs2 in c2._find_all_fs():
+                found[fs2.xmiID] = fs2
+            for a, fs in zip(case["anns"], objs):
+                t = texts[a["view"]]
+                f2 = found.get(fs.xmiID)
+                exp = t[a["b"]: a["e"]]
+                try:
+                    got = None if f2 is None else f2.get_covered_text()
+                except Exception as e:  # noqa: BLE001
+                    got = repr(e)
+                if f2 is None or (f2.begin, f2.end) != (a["b"], a["e"]) or got != exp:
+                    out.oracle_failures.append({"scenario": sc, "what": fmt + ": loaded offsets/covered text differ", "ann": a,
+                                                "expected": [a["b"], a["e"], exp],
+                                                "actual": None if f2 is None else [f2.begin, f2.end, got]})
+            out.count("loaded:" + fmt)
+            # --- replace the text of the first view *after loading*, serialise again: every annotation of
+            #     that view (indexed or only referenced) must be written with offsets of the new text ---
+            tnew = "".join(rng.choice(ALPHABET + ["q"]) for _ in range(len(texts[0]) + 1))
+            try:
+                c2.sofa_string = tnew
+                x3 = c2.to_xmi()
+                j3 = json.loads(c2.to_json())
+            except Exception as e:  # noqa: BLE001
+                out.oracle_failures.append({"scenario": sc, "what": fmt + ": re-serialisation after text replacement raised " + repr(e)[:200]})
+                continue
+            r3 = ET.fromstring(x3.encode("utf-8"))
+            by3 = {int(el.get(XMI_NS + "id")): el for el in r3 if el.get(XMI_NS + "id") is not None}
+            jb3 = {f_["%ID"]: f_ for f_ in j3["%FEATURE_STRUCTURES"]}
+            for a, fs in zip(case["anns"], objs):
+                if a["view"] != 0:
+                    continue
+                eb, ee = u16len(tnew[: a["b"]]), u16len(tnew[: a["e"]])
+                el = by3.get(fs.xmiID)
+                jf = jb3.get(fs.xmiID)
+                got3 = None if el is None else [int(el.get("begin")), int(el.get("end"))]
+                gotj = None if jf is None else [jf.get("begin"), jf.get("end")]
+                if got3 != [eb, ee] or gotj != [eb, ee]:
+                    out.oracle_failures.append({"scenario": sc, "what": fmt + ": offsets written after replacing the text of a loaded view are not UTF-16 offsets of the new text",
+                                                "ann": a, "new_text": [ord(c) for c in tnew], "expected": [eb, ee], "actual_xmi": got3, "actual_json": gotj})
+            out.count("replaced-after-load:" + fmt)
+
+
+def run_documents(ctx, out, budget):
     rng = ctx.rng(7)
     n = 120 if budget == "quick" else 1500
     for k in range(n):
         case = doc_case(rng)
-        texts = [case["t1b"] or case["t1"], case["t2"]]
-        sc = {"k": "doc", "case": case}
-        with warnings.catch_warnings():
-            warnings.simplefilter("ignore")
-            try:
-                ts, cas, objs = build_doc_cas(case)
-                xmi = cas.to_xmi()
-                js = cas.to_json()
-            except Exception as e:  # noqa: BLE001
-                out.oracle_failures.append({"scenario": sc, "what": "serialisation raised " + repr(e)[:200]})
-                continue
-            out.evaluations += 1
-            # --- written offsets are UTF-16 offsets (independent readers) ---
-            root = ET.fromstring(xmi.encode("utf-8"))
-            by_id = {int(el.get(XMI_NS + "id")): el for el in root if el.get(XMI_NS + "id") is not None}
-            data = json.loads(js)
-            jby = {fs["%ID"]: fs for fs in data["%FEATURE_STRUCTURES"]}
-            for a, fs in zip(case["anns"], objs):
-                t = texts[a["view"]]
-                eb, ee = u16len(t[: a["b"]]), u16len(t[: a["e"]])
-                el = by_id.get(fs.xmiID)
-                if el is None or int(el.get("begin")) != eb or int(el.get("end")) != ee:
-                    out.oracle_failures.append({"scenario": sc, "what": "XMI offsets are not the UTF-16 offsets", "ann": a,
-                                                "expected": [eb, ee], "actual": None if el is None else [el.get("begin"), el.get("end")]})
-                jf = jby.get(fs.xmiID)
-                if jf is None or jf.get("begin") != eb or jf.get("end") != ee:
-                    out.oracle_failures.append({"scenario": sc, "what": "JSON offsets are not the UTF-16 offsets", "ann": a,
-                                                "expected": [eb, ee], "actual": None if jf is None else [jf.get("begin"), jf.get("end")]})
-                if eb != a["b"] or ee != a["e"]:
-                    out.nontriv(("doc", k, a["b"], a["e"], a["indexed"]))
-            # --- loading maps back to code points: covered text is the same substring ---
-            for fmt, load in (("xmi", lambda: load_cas_from_xmi(xmi, typesystem=ts)), ("json", lambda: load_cas_from_json(js))):
-                try:
-                    c2 = load()
-                except Exception as e:  # noqa: BLE001
-                    out.oracle_failures.append({"scenario": sc, "what": fmt + " load raised " + repr(e)[:200]})
-                    continue
-                found = {}
-                for fs2 in c2._find_all_fs():
-                    found[fs2.xmiID] = fs2
-                for a, fs in zip(case["anns"], objs):
-                    t = texts[a["view"]]
-                    f2 = found.get(fs.xmiID)
-                    exp = t[a["b"]: a["e"]]
-                    try:
-                        got = None if f2 is None else f2.get_covered_text()
-                    except Exception as e:  # noqa: BLE001
-                        got = repr(e)
-                    if f2 is None or (f2.begin, f2.end) != (a["b"], a["e"]) or got != exp:
-                        out.oracle_failures.append({"scenario": sc, "what": fmt + ": loaded offsets/covered text differ", "ann": a,
-                                                    "expected": [a["b"], a["e"], exp],
-                                                    "actual": None if f2 is None else [f2.begin, f2.end, got]})
-                out.count("loaded:" + fmt)
+        check_doc_case(case, out, k)
         if k < 2:
             out.sample({"doc_case": case})
 
@@ -309,31 +340,7 @@ def replay(ctx, payload):
         got = impl_conv(texts, sc["q"])
         return cur is not None and got != oracle_conv(cur, sc["q"])
     if sc.get("k") == "doc":
-        class R:  # minimal rng stub replaying the stored case
-            pass
-        import warnings
-        with warnings.catch_warnings():
-            warnings.simplefilter("ignore")
-            case = sc["case"]
-            try:
-                ts, cas, objs = build_doc_cas(case)
-                xmi = cas.to_xmi()
-            except Exception:  # noqa: BLE001
-                return True
-            root = ET.fromstring(xmi.encode("utf-8"))
-            by_id = {int(el.get(XMI_NS + "id")): el for el in root if el.get(XMI_NS + "id") is not None}
-            texts = [case["t1b"] or case["t1"], case["t2"]]
-            for a, fs in zip(case["anns"], objs):
-                t = texts[a["view"]]
-                el = by_id.get(fs.xmiID)
-                if el is None or int(el.get("begin")) != u16len(t[: a["b"]]) or int(el.get("end")) != u16len(t[: a["e"]]):
-                    return True
-            from cassis import load_cas_from_xmi
-            c2 = load_cas_from_xmi(xmi, typesystem=ts)
-            found = {f.xmiID: f for f in c2._find_all_fs()}
-            for a, fs in zip(case["anns"], objs):
-                f2 = found.get(fs.xmiID)
-                if f2 is None or (f2.begin, f2.end) != (a["b"], a["e"]):
-                    return True
-        return False
+        o2 = common.Outcome()
+        check_doc_case(sc["case"], o2)
+        return bool(o2.oracle_failures)
     return True
